@@ -15,6 +15,12 @@ CHECKS = {
         "Not proved: that every Cauchy minor is non-singular (MDS) - covered by the differential check (all erasure subsets of all small codes, random large ones); for Vandermonde, singular minors are constructed from the multiplicative orders of the constants and must yield an error in both model and code. Tied to the code on every run; supplied shards re-read after each call.",
    technique="Rocq proof: reconstruction soundness from the unique-solution theorem of Gauss-Jordan (C11) + matrix associativity; exhaustive small-code differential correspondence check",
    design="6/C07", note=NOTE + "Go applies the matrix through the bulk kernels (C09) on bytes, in parallel chunks (C12); the model applies fmul word-wise."),
+ "C12": dict(
+   cat="proof",
+   text="Theorems (Props/C12.v, closed): for the model of rsec16/matrix.go - calculateParallelParams (with Go's truncating / and %), the chunk each goroutine receives, the kernel calls it performs, and a small-step semantics over the shared output - for EVERY length, goroutine count and EVERY schedule (any trace whose projection on each worker is that worker's program): each output cell ends with the value of single-threaded execution regardless of the buffers' previous content; cells outside the outputs are untouched; the chunks tile [0,total) (each index in exactly one chunk, worker count between 1 and g, chunk length a positive multiple of 16); kernel calls of two different workers never touch the same output cell (model-level race freedom); and that value is the matrix-product entry by which GenerateParity/ReconstructData of the coder model (C07) are defined, which has no goroutine parameter. "
+        "Tied to the code: calculateParallelParams compared on an exhaustive grid; applyMatrixSingle/ParallelData/ParallelOut (hook) compared with the model on lengths 0..35 words and larger, g in 1..1000, GOMAXPROCS 1/2/16, canaries around garbage-filled outputs. Data-race freedom of the Go code itself is runtime evidence only: the same cases run under go build -race.",
+   technique="Rocq proof: partition arithmetic (lia/nia) + ownership of cells + projection-based schedule independence; exhaustive-grid and race-detector correspondence check",
+   design="6/C12", note=NOTE + "Not modelled: the Go scheduler and memory model (sync.WaitGroup gives the happens-before edge at the join); the race detector run is evidence, not proof."),
  "C08": dict(
    cat="proof",
    text="Theorems (Props/C08.v, closed under the global context): the log/exp-table implementation model of gf2p16/t.go (T_Times, T_Inverse, T_Div, T_Pow, init without panic) equals reduced carry-less arithmetic modulo 0x1100B for ALL operands (all 2^32 pairs, all exponents < 2^32), plus the field laws. "
@@ -72,6 +78,6 @@ def main():
     }
     json.dump(m, open(os.path.join(HERE, "MANIFEST.json"), "w"), indent=1)
 
-HOOK_COMMITS = ['e2ca3fb']
+HOOK_COMMITS = ['e2ca3fb', '4a4f2dc']
 if __name__ == "__main__":
     main()
